@@ -467,3 +467,6 @@ known.register('C09-read-uamiv-emissions-squeeze', lambda spec, f: (
     (spec['nsteps'] == 1 or spec['nx'] == 1 or spec['ny'] == 1) and
     f.clause == 'r2l-read-raises' and
     f.where == 'IndexError@camxfiles/uamiv/Read.py:constr'))
+known.register('C09-uamiv-tstep-multiday', lambda spec, f: (
+    _fmt(spec, 'uamiv') and spec.get('step_h', 1) > 24 and
+    f.clause == 'r2l-derived' and f.klass == 'uamiv/TSTEP'))
